@@ -19,7 +19,7 @@ ID = "C02"
 LEVEL = "exploration"
 DECIDING = ["C02.adjacency", "C02.borders", "C02.distances", "C02.volumes", "C02.workflow_files"]
 RULE = ("full grids: rotation algorithm in {cube4D, randomQ} with n_b in {1,4,5,8,9,13,20,40(thorough)}, direction algorithm in {ico, cube3D, "
-        "randomS} with n_o in {1,4,5,7,12,13,20,42}, 2-4 unequal radii, factor in {0.5,1,2,3.7}, both position modes (Cartesian only for direction "
+        "randomS} with n_o in {1,4,5,7,12,13,20,42}, 2-4 unequal radii (also picometre shells), factor in {0.5,1,2,3.7,1e-3,250}, both position modes, also the same specification in both modes within one process (Cartesian only for direction "
         "sets that surround the origin); the four getters are called in random order, some twice. Non-trivial = n_b>=4 and n_o>=4 (both "
         "families of neighbours present); distinct by (b, o, t, factor, mode)")
 ASSUMPTIONS = ["composition is checked against the sub-grids' own getters; their geometric truth is C03-C06/C15",
@@ -290,10 +290,16 @@ def run_shard(spec):
         r = [rng.randint(5, 40) / 100]
         for _ in range(T - 1):
             r.append(round(r[-1] + rng.choice([0.02, 0.05, 0.1, 0.3]), 4))
+        if rng.random() < 0.15:
+            r = [float("%.6g" % (x * 1e-3)) for x in r]          # picometre shells: tiny borders and distances are still entries
         t = "[" + ", ".join(str(x) for x in r) + "]"
-        f = rng.choice([0.5, 1, 2, 3.7])
+        f = rng.choice([0.5, 1, 2, 3.7, 1e-3, 250.0])            # every factor f > 0
         cart = rng.random() < 0.4 and no >= 4 and surrounds(oalg, no)
-        drive(FullGrid, f"{balg}_{nb}" if nb > 1 else "1", f"{oalg}_{no}" if no > 1 else "1", t, f, cart, rng.randrange(10 ** 6))
+        b, o = (f"{balg}_{nb}" if nb > 1 else "1"), (f"{oalg}_{no}" if no > 1 else "1")
+        drive(FullGrid, b, o, t, f, cart, rng.randrange(10 ** 6))
+        if no >= 4 and surrounds(oalg, no) and rng.random() < 0.5:
+            # history: the same specification in the OTHER position mode, in the same process (nothing may be shared between the two)
+            drive(FullGrid, b, o, t, f, not cart, rng.randrange(10 ** 6))
 
 
 def replay(case):
